@@ -71,6 +71,23 @@ CLAIMS = {
                 'behind alignment/continuity/first-hash tests. The counting argument itself is a value clause.',
         'note': 'Not decided: that fewer-than-quorum deviating peers cannot block agreement; check point arithmetic.',
     },
+    'C09': {
+        'technique': 'static analysis: per-arm storage-effect table vs README, def-use of the rewind value, post-dominance, lock region, statement-guard flow over compiler MIR',
+        'text': 'Decides that each set_scripts command arm has exactly the documented storage effects (all = delete-all-under-prefix + put, '
+                'partial = put, delete = delete; empty partial/delete = none); that the rewind value is assigned from the given block '
+                'numbers through min in all/partial (partial: also min with current progress) and never in delete; that pending matched '
+                'blocks are cleared in store and memory after every effective command, inside one matched-blocks critical section; that '
+                'update_block_number only raises. "Far enough for every sequence" is a value clause and not decided.',
+        'note': 'Not decided: sufficiency of the rewind for every command sequence at every sync position.',
+    },
+    'C15': {
+        'technique': 'static analysis: call- and statement-guard flow with operand provenance, return-type and sort-dominance checks over compiler MIR',
+        'text': 'Decides for all paths of both request builders that a request is returned only when start difficulty > last difficulty and '
+                'start number >= last number were both false; that sampling is reachable only when more than last-N blocks are missing '
+                '(otherwise all blocks, no samples); that samples are a HashSet collected, sorted and returned; that samples >= boundary are '
+                'clamped to boundary - 1. Sample counts and ranges are arithmetic (value clauses).',
+        'note': 'Not decided: FlyClient sample-count bound, samples strictly inside (start, boundary), f64 arithmetic.',
+    },
 }
 
 _PENDING = 'check not built yet in this round (planned in DESIGN.md §5); not claimed until its rules run on the tree'
